@@ -1,6 +1,9 @@
 (** Case format of every port-level correspondence run and the
     model-vs-implementation agreement check.  No proofs. *)
-From SV Require Export Base.Cases Port.Instance.
+From SV Require Export Base.Cases Base.Lit Port.Instance.
+
+(** tagged observation (literal helper for generated files) *)
+Definition tg (i : Z) (o : obs) : Z * obs := (i, o).
 
 Definition opt_z_eqb (a b : option Z) : bool := opt_eqb Z.eqb a b.
 
